@@ -14,6 +14,9 @@ import Pycoin.Props.C01
 import Pycoin.Props.C10
 import Pycoin.Props.C04
 import Pycoin.Proofs.SecRt
+import Pycoin.Proofs.SolveWrap
+import Pycoin.Proofs.SolveFuel
+import Pycoin.Proofs.SolveClassify
 /-!
 C05 — property theorems about the signer model (`Model/Sign.lean`).
 
@@ -40,7 +43,17 @@ C05 — property theorems about the signer model (`Model/Sign.lean`).
   listed keys were supplied, independently of the order of the passes (under two explicit unforgeability-style hypotheses);
   `C05_partial_order_independent_partial`, `C05_partial_placeholders`, `C05_placeholder_invalid_partial`: the combinatorial core;
 * `C05_who_signed_exact_partial`: the model of `who_signed` reports exactly the keys that signed; `C05_next_pass_reads_solution`;
-* `C05_sign_frame`, `C05_sign_frame_empty`: nothing but script and witness of the chosen, not yet valid inputs changes.
+* `C05_sign_frame`, `C05_sign_frame_empty`: nothing but script and witness of the chosen, not yet valid inputs changes;
+* the solver's symbolic machinery (`Model/Constraints.lean`, `Model/ConstraintSolver.lean`: `DynamicStack`, the traceback hook and
+  its five symbolic opcodes, `determine_constraints`, pattern matching, the solver loop, `solve`):
+  `C05_constraints_p2pkh/_p2pk/_multisig/_wrapped/_p2wpkh/_p2sh_p2wpkh`: the constraint list of every standard template (multisig by
+  induction on the key list, every 1 ≤ m ≤ n ≤ 20, the four wrappers); `C05_solve_constraints_*`: the solver loop on them =
+  `solveBase`; `C05_solve_machinery_multisig/_p2pkh/_p2pk/_p2wpkh/_p2sh_p2wpkh`: `Solve.solve` (the machinery) returns what the
+  result-level model returns; `C05_solve_machinery_*_end_to_end`: the end-to-end theorems started from the machinery;
+  `C05_solve_machinery_eq_result_model_multisig/_p2pk/_p2pkh/_p2wpkh/_p2sh_p2wpkh` (full) and `…_partial` (any base script under the
+  four wrappers, given that `Sign.classify` recognises it): `Solve.solve` = `Sign.solve`;
+  `C05_solve_machinery_frame`, `C05_solve_machinery_missing_key`: unsolvable ⇒ untouched; `C05_solve_loop_fuel`,
+  `C05_constraints_fetch_fuel`: the two fuels suffice.
 -/
 namespace Pycoin.Sign
 open Pycoin Pycoin.Spec.Consensus Pycoin.Curve
@@ -1718,6 +1731,508 @@ theorem C05_sign_frame_empty (a : SignArgs) (tx tx' : Tx) (us : List (Option TxO
   split at h
   · cases h
   · cases h; rfl
+
+
+/-! ## the solver's symbolic machinery (`Model/Constraints.lean`, `Model/ConstraintSolver.lean`) -/
+
+section machinery
+open Pycoin.Solve
+
+/-- **Constraints of P2PKH.**  `determine_constraints` on `DUP HASH160 <h> EQUALVERIFY CHECKSIG`, whatever the p2sh lookup: the
+key is the first atom the empty stack invents (`OP_DUP`), `OP_HASH160` and `OP_EQUALVERIFY` go symbolic on it, `OP_CHECKSIG`
+invents the signature atom. -/
+theorem C05_constraints_p2pkh (p2sh : Bytes → Option Bytes) (ctx : VM.TxCtx) (h : Bytes) (hlen : h.length = 20) :
+    determineConstraints p2sh ctx (p2pkhScript h) =
+      .ok [.equal (.const h) (.hash160 (.atom (.x 0))), .isPubkey (.atom (.x 0)), .isSignature (.atom (.x 1)),
+           .sigsCorrect [.atom (.x 0)] [.atom (.x 1)] false (p2pkhScript h)] :=
+  determineConstraints_bare p2sh ctx _ _ (baseRun_p2pkh h hlen) (scriptHash_p2pkh h) (version_p2pkh h)
+
+/-- **Constraints of P2PK.** -/
+theorem C05_constraints_p2pk (p2sh : Bytes → Option Bytes) (ctx : VM.TxCtx) (key : Bytes) (h1 : 1 ≤ key.length)
+    (h75 : key.length ≤ 75) :
+    determineConstraints p2sh ctx (p2pkScript key) =
+      .ok [.isPubkey (.const key), .isSignature (.atom (.x 0)), .sigsCorrect [.const key] [.atom (.x 0)] false (p2pkScript key)] :=
+  determineConstraints_bare p2sh ctx _ _ (baseRun_p2pk key h1 h75) (scriptHash_p2pk key h75) (version_p2pk key h1 h75)
+
+/-- **Constraints of bare m-of-n multisig, every `1 ≤ m ≤ n ≤ 20`** (induction on the key list): one `IS_PUBKEY` per key, last
+key first; `IS_SIGNATURE` for the atoms `x_0 … x_{m-1}`; the dummy `EQUAL(x_m, b"")`; `SIGNATURES_CORRECT` over the reversed key
+list and the `m` signature atoms, with the legacy sighash closure of the whole script. -/
+theorem C05_constraints_multisig (p2sh : Bytes → Option Bytes) (ctx : VM.TxCtx) (m : Nat) (keys : List Bytes) (hm1 : 1 ≤ m)
+    (hmn : m ≤ keys.length) (hn : keys.length ≤ 20) (hkeys : ∀ k ∈ keys, 1 ≤ k.length ∧ k.length ≤ 75) :
+    determineConstraints p2sh ctx (multisigScriptN m keys) =
+      .ok (keys.reverse.map (fun k => .isPubkey (.const k)) ++
+        (List.range' 0 m).map (fun i => .isSignature (.atom (.x i))) ++
+        [.equal (.atom (.x m)) (.const []),
+         .sigsCorrect (keys.reverse.map Leaf.const) ((List.range' 0 m).map (fun i => Leaf.atom (.x i))) false
+           (multisigScriptN m keys)]) := by
+  rw [determineConstraints_bare p2sh ctx _ _ (baseRun_multisig m keys hm1 hmn hn hkeys) (scriptHash_multisig m keys (by omega))
+    (version_multisig m keys hm1 (by omega) (by omega) hkeys)]
+  simp [multisigConstraints, freshAtoms, Atom.mk, List.map_map, Function.comp_def]
+
+/-- **Constraints under the wrappers** (P2SH, P2WSH, P2SH-P2WSH), for any base script whose own stage is known — in particular
+m-of-n multisig for every `1 ≤ m ≤ n ≤ 20`: the base script's constraints with the atoms numbered from 1 (`x_…` under P2SH,
+`w_…` under a witness script, BIP143 closure there), then `EQUAL(x_0, redeem script)` and/or `EQUAL(w_0, witness script)`. -/
+theorem C05_constraints_wrapped (w : Wrap) (p2sh : Bytes → Option Bytes) (ctx : VM.TxCtx) (ms : Bytes)
+    (cs : Nat → Bool → Bool → List Term) (hrun : BaseRun ms cs) (hk : LookupKnows p2sh w ms) (hsz : WrapSizes w ms)
+    (hsh : scriptHash ms = none) (hv : VM.witnessProgramVersion ms = none) :
+    determineConstraints p2sh ctx (w.spk ms) =
+      .ok (match w with
+        | .bare => cs 0 false false
+        | .p2sh => cs 1 false false ++ [.equal (.atom (.x 0)) (.const ms)]
+        | .p2wsh => cs 1 true true ++ [.equal (.atom (.w 0)) (.const ms)]
+        | .p2shP2wsh => cs 1 true true ++
+            [.equal (.atom (.x 0)) (.const (witnessV0Script (Hash.sha256 ms))), .equal (.atom (.w 0)) (.const ms)]) := by
+  cases w with
+  | bare => exact determineConstraints_bare p2sh ctx ms cs hrun hsh hv
+  | p2sh => exact determineConstraints_p2sh p2sh ctx _ ms (hsz.h160 rfl).1 cs hrun hk (hsz.h160 rfl).2 hv
+  | p2wsh => exact determineConstraints_p2wsh p2sh ctx _ ms (hsz.sha rfl) cs hrun hk rfl
+  | p2shP2wsh => exact determineConstraints_p2sh_p2wsh p2sh ctx _ _ ms (hsz.h160w rfl) (hsz.sha rfl) cs hrun hk.1 hk.2 rfl
+
+/-- the stage of `m <key>… n CHECKMULTISIG`, for `C05_constraints_wrapped` -/
+theorem C05_constraints_multisig_stage (m : Nat) (keys : List Bytes) (hm1 : 1 ≤ m) (hmn : m ≤ keys.length) (hn : keys.length ≤ 20)
+    (hkeys : ∀ k ∈ keys, 1 ≤ k.length ∧ k.length ≤ 75) :
+    BaseRun (multisigScriptN m keys) (fun r isW wit => multisigConstraints m keys isW r wit) ∧
+      scriptHash (multisigScriptN m keys) = none ∧ VM.witnessProgramVersion (multisigScriptN m keys) = none :=
+  ⟨baseRun_multisig m keys hm1 hmn hn hkeys, scriptHash_multisig m keys (by omega),
+    version_multisig m keys hm1 (by omega) (by omega) hkeys⟩
+
+/-- **Constraints of P2WPKH and P2SH-P2WPKH**: the P2PKH script of the program run on the witness stack `[w_1, w_0]` with the
+BIP143 closure; under P2SH also `EQUAL(x_0, OP_0 <program>)`. -/
+theorem C05_constraints_p2wpkh (p2sh : Bytes → Option Bytes) (ctx : VM.TxCtx) (prog : Bytes) (hlen : prog.length = 20) :
+    determineConstraints p2sh ctx (witnessV0Script prog) =
+      .ok [.equal (.const prog) (.hash160 (.atom (.w 0))), .isPubkey (.atom (.w 0)), .isSignature (.atom (.w 1)),
+           .sigsCorrect [.atom (.w 0)] [.atom (.w 1)] true (p2pkhScript prog)] :=
+  determineConstraints_p2wpkh p2sh ctx prog hlen
+
+theorem C05_constraints_p2sh_p2wpkh (p2sh : Bytes → Option Bytes) (ctx : VM.TxCtx) (h prog : Bytes) (hlen : h.length = 20)
+    (hplen : prog.length = 20) (hl : p2sh h = some (witnessV0Script prog)) :
+    determineConstraints p2sh ctx (p2shScript h) =
+      .ok [.equal (.const prog) (.hash160 (.atom (.w 0))), .isPubkey (.atom (.w 0)), .isSignature (.atom (.w 1)),
+           .sigsCorrect [.atom (.w 0)] [.atom (.w 1)] true (p2pkhScript prog),
+           .equal (.atom (.x 0)) (.const (witnessV0Script prog))] :=
+  determineConstraints_p2sh_p2wpkh p2sh ctx h prog hlen hplen hl
+
+/-- a missing redeem or witness script is the `ValueError` of `determine_constraints` (which `Solver.sign` swallows) -/
+theorem C05_constraints_p2sh_unknown (p2sh : Bytes → Option Bytes) (ctx : VM.TxCtx) (h : Bytes) (hlen : h.length = 20)
+    (hl : p2sh h = none) : determineConstraints p2sh ctx (p2shScript h) = .error .value := by
+  simp [determineConstraints, scriptHash_p2sh h hlen, hl]
+
+/-- **The solver loop on the constraints of the base templates** (with the closing constraints `EQUAL(x_0, …)`, `EQUAL(w_0, …)` of
+the wrappers, `cx`/`cw`): which solver fires on which constraint, in the registered order, and what it assigns — the lists
+`solve_for_constraints` returns are `solveBase`'s items (atoms by descending number), split by atom letter. -/
+theorem C05_solve_constraints_multisig (a : SolveArgs) (ex : List Bytes) (m : Nat) (keys : List Bytes) (isW : Bool) (r : Nat)
+    (wit : Bool) (cx cw : Option Bytes) (ph : Bytes) (hph : a.placeholder = some ph)
+    (hpos : ((isW = false ∧ cx.isSome) ∨ (isW = true ∧ cw.isSome)) → 0 < r) :
+    solveForConstraints a ex (multisigConstraints m keys isW r wit ++ closingTerms cx cw) =
+      match solveBase a.C a.lookup (a.sighash wit (multisigScriptN m keys)) ex a.ht a.placeholder (.multisig m keys) with
+      | .error e => .error e
+      | .ok items => .ok (splitByLetter isW items cx cw) :=
+  solveFor_multisig a ex m keys isW r wit cx cw ph hph hpos
+
+theorem C05_solve_constraints_p2pkh (a : SolveArgs) (ex : List Bytes) (h : Bytes) (k g : Atom) (wit : Bool) (cx cw : Option Bytes)
+    (ph : Bytes) (hph : a.placeholder = some ph) (hkg : k.number < g.number) (hl : k.isW = g.isW)
+    (hpos : ((g.isW = false ∧ cx.isSome) ∨ (g.isW = true ∧ cw.isSome)) → 0 < k.number) :
+    solveForConstraints a ex (p2pkhConstraints h k g wit ++ closingTerms cx cw) =
+      match solveBase a.C a.lookup (a.sighash wit (p2pkhScript h)) ex a.ht a.placeholder (.p2pkh h) with
+      | .error e => .error e
+      | .ok items => .ok (splitByLetter g.isW items cx cw) :=
+  solveFor_p2pkh a ex h k g wit cx cw ph hph hkg hl hpos
+
+theorem C05_solve_constraints_p2pk (a : SolveArgs) (ex : List Bytes) (key : Bytes) (g : Atom) (wit : Bool) (cx cw : Option Bytes)
+    (ph : Bytes) (hph : a.placeholder = some ph)
+    (hpos : ((g.isW = false ∧ cx.isSome) ∨ (g.isW = true ∧ cw.isSome)) → 0 < g.number) :
+    solveForConstraints a ex (p2pkConstraints key g wit ++ closingTerms cx cw) =
+      match solveBase a.C a.lookup (a.sighash wit (p2pkScript key)) ex a.ht a.placeholder (.p2pk key) with
+      | .error e => .error e
+      | .ok items => .ok (splitByLetter g.isW items cx cw) :=
+  solveFor_p2pk a ex key g wit cx cw ph hph hpos
+
+/-- **The machinery returns what the result-level model returns: m-of-n multisig, every `1 ≤ m ≤ n ≤ 20`, the four wrappers.**
+`Solve.solve` = `determine_constraints` (symbolic run) + `solve_for_constraints` (pattern matching, solver loop) +
+`compile_push_data_list`; the right-hand side is `Sign.solve`'s branch for the wrapper, over `solveBase`. -/
+theorem C05_solve_machinery_multisig (w : Wrap) (a : SolveArgs) (ctx : VM.TxCtx) (m : Nat) (keys : List Bytes) (ph : Bytes)
+    (script : Bytes) (witness : List Bytes) (hph : a.placeholder = some ph)
+    (hm1 : 1 ≤ m) (hmn : m ≤ keys.length) (hn : keys.length ≤ 20) (hkeys : ∀ k ∈ keys, 1 ≤ k.length ∧ k.length ≤ 75)
+    (hk : LookupKnows a.p2sh w (multisigScriptN m keys)) (hsz : WrapSizes w (multisigScriptN m keys)) :
+    Solve.solve a ctx (w.spk (multisigScriptN m keys)) script witness =
+      match existingScript script witness with
+      | .error e => .error e
+      | .ok existing =>
+        match solveBase a.C a.lookup (a.sighash w.witness (multisigScriptN m keys)) existing a.ht a.placeholder (.multisig m keys) with
+        | .error e => .error e
+        | .ok items =>
+          match pushAll (wrapPushes w (multisigScriptN m keys) items) with
+          | .error e => .error e
+          | .ok sc => .ok (sc, if w.witness then some (items ++ [some (multisigScriptN m keys)]) else none) :=
+  solve_wrap w a ctx _ _ (baseOK_multisig a ph hph m keys hm1 hmn hn hkeys) script witness hk hsz
+    (scriptHash_multisig m keys (by omega)) (version_multisig m keys hm1 (by omega) (by omega) hkeys)
+
+/-- **… P2PKH** (bare; under a wrapper: `solve_wrap` with `baseOK_p2pkh`) -/
+theorem C05_solve_machinery_p2pkh (a : SolveArgs) (ctx : VM.TxCtx) (h ph : Bytes) (script : Bytes) (witness : List Bytes)
+    (hph : a.placeholder = some ph) (hlen : h.length = 20) :
+    Solve.solve a ctx (p2pkhScript h) script witness =
+      match existingScript script witness with
+      | .error e => .error e
+      | .ok existing =>
+        match solveBase a.C a.lookup (a.sighash false (p2pkhScript h)) existing a.ht a.placeholder (.p2pkh h) with
+        | .error e => .error e
+        | .ok items =>
+          match pushAll items with
+          | .error e => .error e
+          | .ok sc => .ok (sc, none) :=
+  solve_bare a ctx _ _ (baseOK_p2pkh a ph hph h hlen) script witness (scriptHash_p2pkh h) (version_p2pkh h)
+
+/-- **… P2PK** -/
+theorem C05_solve_machinery_p2pk (a : SolveArgs) (ctx : VM.TxCtx) (key ph : Bytes) (script : Bytes) (witness : List Bytes)
+    (hph : a.placeholder = some ph) (h1 : 1 ≤ key.length) (h75 : key.length ≤ 75) :
+    Solve.solve a ctx (p2pkScript key) script witness =
+      match existingScript script witness with
+      | .error e => .error e
+      | .ok existing =>
+        match solveBase a.C a.lookup (a.sighash false (p2pkScript key)) existing a.ht a.placeholder (.p2pk key) with
+        | .error e => .error e
+        | .ok items =>
+          match pushAll items with
+          | .error e => .error e
+          | .ok sc => .ok (sc, none) :=
+  solve_bare a ctx _ _ (baseOK_p2pk a ph hph key h1 h75) script witness (scriptHash_p2pk key h75) (version_p2pk key h1 h75)
+
+/-- **… P2WPKH** -/
+theorem C05_solve_machinery_p2wpkh (a : SolveArgs) (ctx : VM.TxCtx) (prog ph : Bytes) (script : Bytes) (witness : List Bytes)
+    (hph : a.placeholder = some ph) (hlen : prog.length = 20) :
+    Solve.solve a ctx (witnessV0Script prog) script witness =
+      match existingScript script witness with
+      | .error e => .error e
+      | .ok existing =>
+        match solveBase a.C a.lookup (a.sighash true (p2pkhScript prog)) existing a.ht a.placeholder (.p2pkh prog) with
+        | .error e => .error e
+        | .ok items => .ok ([], some items) :=
+  solve_p2wpkh a ctx prog ph hph script witness hlen
+
+/-- **… P2SH-P2WPKH** -/
+theorem C05_solve_machinery_p2sh_p2wpkh (a : SolveArgs) (ctx : VM.TxCtx) (h prog ph : Bytes) (script : Bytes)
+    (witness : List Bytes) (hph : a.placeholder = some ph) (hlen : h.length = 20) (hplen : prog.length = 20)
+    (hl : a.p2sh h = some (witnessV0Script prog)) :
+    Solve.solve a ctx (p2shScript h) script witness =
+      match existingScript script witness with
+      | .error e => .error e
+      | .ok existing =>
+        match solveBase a.C a.lookup (a.sighash true (p2pkhScript prog)) existing a.ht a.placeholder (.p2pkh prog) with
+        | .error e => .error e
+        | .ok items =>
+          match pushAll [some (witnessV0Script prog)] with
+          | .error e => .error e
+          | .ok sc => .ok (sc, some items) :=
+  solve_p2sh_p2wpkh a ctx h prog ph hph script witness hlen hplen hl
+
+/-- **Unsolvable ⇒ untouched.**  Whatever the puzzle: when the machinery ends with an exception `Solver.sign` catches
+(`SolvingError`: the hash lookup misses the key; `ValueError`: the redeem or witness script is not in the p2sh lookup, a key
+does not decode, …) the pass leaves every input as it was; when it produces a solution, only script and witness of that input
+change. -/
+theorem C05_solve_machinery_frame (a : SignArgs) (ctx : Nat → VM.TxCtx) (us : List (Option TxOut)) (ins ins' : List TxIn)
+    (idx : Nat) (h : Solve.signOne a ctx us ins idx = .ok ins') :
+    ins' = ins ∨ ∃ tin sc w, ins[idx]? = some tin ∧ a.valid idx = false ∧ ins' = ins.set idx { tin with script := sc, witness := w } := by
+  unfold Solve.signOne at h
+  cases hi : ins[idx]? with
+  | none => rw [hi] at h; cases h
+  | some tin =>
+    rw [hi] at h
+    simp only [] at h
+    by_cases hv : a.valid idx = true
+    · simp only [hv, if_true] at h; cases h; exact Or.inl rfl
+    · simp only [hv, Bool.false_eq_true, if_false] at h
+      split at h
+      · cases h; exact Or.inr ⟨tin, _, tin.witness, rfl, by simpa using hv, rfl⟩
+      · split at h
+        · cases h; exact Or.inr ⟨tin, _, _, rfl, by simpa using hv, rfl⟩
+        · cases h
+      · split at h
+        · cases h; exact Or.inl rfl
+        · cases h
+
+/-- the P2PKH instance: a lookup that does not hold the key makes the machinery raise `SolvingError` (out of
+`hash_lookup_solver`), so `Solver.sign` leaves the input alone -/
+theorem C05_solve_machinery_missing_key (a : SolveArgs) (ctx : VM.TxCtx) (h ph : Bytes) (script : Bytes) (witness : List Bytes)
+    (ex : List Bytes) (hph : a.placeholder = some ph) (hlen : h.length = 20) (hl : a.lookup h = none)
+    (hex : existingScript script witness = .ok ex) :
+    Solve.solve a ctx (p2pkhScript h) script witness = .error .solving ∧ Err.caughtBySign .solving = true := by
+  rw [C05_solve_machinery_p2pkh a ctx h ph script witness hph hlen, hex]
+  simp [solveBase, hl, Err.caughtBySign]
+
+
+/-- what `Solver.sign` hands to `solve` for input `idx`: the secp256k1 operations (C01), the digest of C04's model, the default
+placeholder `ph` -/
+def machineryArgs (coin : Coin) (tx : Tx) (us : List (Option TxOut)) (idx : Nat) (lookup : Lookup) (p2sh : Bytes → Option Bytes)
+    (ht : Nat) (ph : Bytes) : SolveArgs :=
+  { C := secp256k1Crypto, lookup := lookup, p2sh := p2sh, sighash := modelSighash coin tx us idx, ht := ht, placeholder := some ph }
+
+/-- **m-of-n multisig, end to end, from the machinery** (the four wrappers, every `1 ≤ m ≤ n ≤ 20`): under the hypotheses of
+`C05_multisig_end_to_end` and a p2sh lookup that holds the wrapper's scripts, the symbolic run + solver loop + push compiler
+write, for a fresh input, exactly the scriptSig and witness (`Wrap.scriptSig`, `Wrap.wit`) that the consensus specification
+accepts — the dummy and the signatures of the first `m` listed keys the lookup holds. -/
+theorem C05_solve_machinery_multisig_end_to_end (w : Wrap) (coin : Coin) (tx : Tx) (us : List (Option TxOut)) (idx : Nat)
+    (lookup : Lookup) (p2sh : Bytes → Option Bytes) (ctx : VM.TxCtx)
+    (ph : Bytes) (m : Nat) (keys : List Bytes) (d x y : Nat → Int) (comp : Nat → Bool) (sg : Nat → Bytes) (z : Int) (ht : Nat)
+    (flags : Flags) (txc : TxCtx)
+    (hm1 : 1 ≤ m) (hmn : m ≤ keys.length) (hn : keys.length ≤ 20)
+    (HK : HonestKeys keys.reverse d x y comp)
+    (hz : modelSighash coin tx us idx w.witness (multisigScriptN m keys) ht = some z)
+    (hsg : SignsWith keys.reverse d z ht sg) (hl : LookupFor keys.reverse d lookup)
+    (henough : m ≤ card keys.reverse.length (inTOf lookup keys.reverse))
+    (hht : ht ≤ 255) (hstd : standardHashType ht ∨ flags.strictenc = false)
+    (hcomp : w.witness = true → ∀ i, comp i = true)
+    (ok : w.Ok (multisigScriptN m keys) flags) (hph : 2 ≤ ph.length ∧ ph.length ≤ 75)
+    (hcode : ∀ sigs, (∀ s ∈ sigs, Canonical ht s) → CodeIs w (multisigScriptN m keys) flags txc sigs)
+    (hk : LookupKnows p2sh w (multisigScriptN m keys)) :
+    ∃ sgn : Nat → Bool, card keys.reverse.length sgn = m ∧ (∀ i, sgn i = true → inTOf lookup keys.reverse i = true) ∧
+      Solve.solve (machineryArgs coin tx us idx lookup p2sh ht ph) ctx (w.spk (multisigScriptN m keys)) [] [] =
+        .ok (w.scriptSig (multisigScriptN m keys) (stateSolved keys.reverse.length m sg ph sgn),
+             if w.witness then some ((w.wit (multisigScriptN m keys) (stateSolved keys.reverse.length m sg ph sgn)).map some) else none) ∧
+      verifyScript (realChk coin tx us idx)
+        (w.scriptSig (multisigScriptN m keys) (stateSolved keys.reverse.length m sg ph sgn))
+        (w.spk (multisigScriptN m keys))
+        (w.wit (multisigScriptN m keys) (stateSolved keys.reverse.length m sg ph sgn)) flags txc = none := by
+  obtain ⟨sgn, hcard, hsub, hsolve, hver⟩ := C05_multisig_end_to_end w coin tx us idx lookup ph m keys d x y comp sg z ht flags txc
+    hm1 hmn hn HK hz hsg hl henough hht hstd hcomp ok hph hcode
+  refine ⟨sgn, hcard, hsub, ?_, hver⟩
+  have hs := sizesOk_of HK hsg hht hph
+  have hkeys : ∀ k ∈ keys, 1 ≤ k.length ∧ k.length ≤ 75 := fun k hk' => ⟨by have := (hs.1 k hk').1; omega, (hs.1 k hk').2⟩
+  have hsz : WrapSizes w (multisigScriptN m keys) := ⟨ok.h160, fun h => (ok.wit h).2.1, ok.h160w⟩
+  have hlen := multisig_length_le m keys hn (fun k hk' => (hkeys k hk').2)
+  rw [C05_solve_machinery_multisig w _ ctx m keys ph [] [] rfl hm1 hmn hn hkeys hk hsz, existingScript_fresh]
+  simp only [machineryArgs]
+  rw [hsolve]
+  simp only
+  rw [pushAll_wrap w _ _ hsz (stateSolved_items m keys sg ph sgn hs) ok.inner.2.2 (by omega)]
+  cases hw : w.witness <;> simp [Wrap.wit, hw]
+
+/-- **P2WPKH, end to end, from the machinery**: under the hypotheses of `C05_p2wpkh_end_to_end` the machinery writes an empty
+scriptSig and the witness `[sig, key]` that the consensus specification accepts. -/
+theorem C05_solve_machinery_p2wpkh_end_to_end (coin : Coin) (tx : Tx) (us : List (Option TxOut)) (idx : Nat) (lookup : Lookup)
+    (p2sh : Bytes → Option Bytes) (ctx : VM.TxCtx) (ph : Bytes)
+    (d x y z : Int) (key h : Bytes) (ht : Nat) (flags : Flags) (txc : TxCtx)
+    (hpub : mulG k1 0 d = .ok (some (x, y))) (hkey : publicPairToSec x y true = .ok key)
+    (hh : Hash.hash160 key = h) (hlen : h.length = 20) (htrue : castToBool h = true)
+    (hl : lookup h = some ⟨d, x, y, true⟩)
+    (hz : modelSighash coin tx us idx true (p2pkhScript h) ht = some z)
+    (hsign : ∃ r s, secp256k1Crypto.sign d z = .ok (r, s))
+    (hw : flags.witness = true) (hht : ht ≤ 255) (hstd : standardHashType ht ∨ flags.strictenc = false) :
+    ∃ sig, Solve.solve (machineryArgs coin tx us idx lookup p2sh ht ph) ctx (witnessV0Script h) [] [] = .ok ([], some [some sig, some key]) ∧
+      verifyScript (realChk coin tx us idx) [] (witnessV0Script h) [sig, key] flags txc = none := by
+  obtain ⟨sig, hsolve, hver⟩ := C05_p2wpkh_end_to_end coin tx us idx lookup ph d x y z key h ht flags txc hpub hkey hh hlen htrue
+    hl hz hsign hw hht hstd
+  refine ⟨sig, ?_, hver⟩
+  rw [C05_solve_machinery_p2wpkh _ ctx h ph [] [] rfl hlen, existingScript_fresh]
+  simp only [machineryArgs]
+  rw [hsolve]
+
+/-- **P2PKH, end to end, from the machinery** (hypotheses of `C05_p2pkh_end_to_end`). -/
+theorem C05_solve_machinery_p2pkh_end_to_end (coin : Coin) (tx : Tx) (us : List (Option TxOut)) (idx : Nat) (lookup : Lookup)
+    (p2sh : Bytes → Option Bytes) (ctx : VM.TxCtx) (ph : Bytes)
+    (d x y z : Int) (comp : Bool) (key h : Bytes) (ht : Nat) (flags : Flags) (txc : TxCtx)
+    (hpub : mulG k1 0 d = .ok (some (x, y))) (hkey : publicPairToSec x y comp = .ok key)
+    (hh : Hash.hash160 key = h) (hlen : h.length = 20)
+    (hl : lookup h = some ⟨d, x, y, comp⟩)
+    (hz : modelSighash coin tx us idx false (p2pkhScript h) ht = some z)
+    (hsign : ∃ r s, secp256k1Crypto.sign d z = .ok (r, s))
+    (hht : ht ≤ 255) (hstd : standardHashType ht ∨ flags.strictenc = false)
+    (hfd : ∀ sig, Canonical ht sig →
+      scriptCodeFor ⟨p2pkhScript h, flags, .base, txc⟩ ⟨[], [], [], 0, 0⟩ [sig] = p2pkhScript h) :
+    ∃ scriptSig, Solve.solve (machineryArgs coin tx us idx lookup p2sh ht ph) ctx (p2pkhScript h) [] [] = .ok (scriptSig, none) ∧
+      verifyScript (realChk coin tx us idx) scriptSig (p2pkhScript h) [] flags txc = none := by
+  obtain ⟨sig, sc, hsolve, hpush, hver⟩ := C05_p2pkh_end_to_end coin tx us idx lookup ph d x y z comp key h ht flags txc hpub hkey
+    hh hlen hl hz hsign hht hstd hfd
+  refine ⟨sc, ?_, hver⟩
+  rw [C05_solve_machinery_p2pkh _ ctx h ph [] [] rfl hlen, existingScript_fresh]
+  simp only [machineryArgs]
+  rw [hsolve]
+  simp only
+  rw [hpush]
+
+/-! ### the machinery and the result-level `Sign.solve` -/
+
+theorem sign_scriptHash_p2sh (h : Bytes) (hlen : h.length = 20) : scriptHashFromScript (p2shScript h) = some h := by
+  have hl : (p2shScript h).length = 23 := by simp [p2shScript, directPush, hlen]
+  have hlast : (p2shScript h).getLast? = some 0x87 := by
+    rw [show p2shScript h = (0xa9 :: directPush h) ++ [0x87] from by simp [p2shScript], List.getLast?_concat]
+  have h1 : (p2shScript h)[1]? = some 0x14 := by simp [p2shScript, directPush, hlen]
+  have h0 : (p2shScript h).head? = some 0xa9 := by simp [p2shScript]
+  simp only [scriptHashFromScript, hl, hlast, h1, h0, and_self, if_true]
+  simp [p2shScript, directPush, slice, hlen]
+
+theorem sign_scriptHash_none (b : UInt8) (tl : Bytes) (hb : b ≠ 0xa9) : scriptHashFromScript (b :: tl) = none := by
+  simp [scriptHashFromScript, hb]
+
+theorem sign_isWitnessV0_false (b : UInt8) (tl : Bytes) (hb : b ≠ 0) : isWitnessV0 (b :: tl) = false := by
+  unfold isWitnessV0
+  cases tl with
+  | nil => simp
+  | cons c t => simp [hb]
+
+theorem sign_isWitnessV0_true (prog : Bytes) (h2 : 2 ≤ prog.length) (h40 : prog.length ≤ 40) :
+    isWitnessV0 (witnessV0Script prog) = true := by
+  have hb : (UInt8.ofNat prog.length).toNat = prog.length := by rw [UInt8.toNat_ofNat']; omega
+  have hl : (witnessV0Script prog).length = prog.length + 2 := by simp [witnessV0Script, directPush]
+  unfold isWitnessV0
+  rw [hl]
+  simp [witnessV0Script, directPush, hb]
+  omega
+
+/-- the machinery's answer in the vocabulary of `Sign.solve`: unsolved witness items dropped -/
+def dropNone (r : Bytes × Option (List (Option Bytes))) : Bytes × Option (List Bytes) := (r.1, r.2.map (fun l => l.filterMap id))
+
+/-- **The machinery agrees with the result-level model `Sign.solve`** on a base script under any of the four wrappers
+(`_partial`: `hcl` — that `Sign.classify`, the result-level model's own template recogniser, classifies the base script as the
+template — is a hypothesis here; the machinery itself does not classify anything). -/
+theorem C05_solve_machinery_eq_result_model_partial (w : Wrap) (a : SolveArgs) (ctx : VM.TxCtx) (ms : Bytes) (base : Base)
+    (hb : BaseOK a ms base) (script : Bytes) (witness : List Bytes) (hk : LookupKnows a.p2sh w ms) (hsz : WrapSizes w ms)
+    (hsh : scriptHash ms = none) (hv : VM.witnessProgramVersion ms = none)
+    (hhead : ∃ b tl, ms = b :: tl ∧ b ≠ 0xa9 ∧ b ≠ 0) (hcl : classify ms = some base) :
+    (Solve.solve a ctx (w.spk ms) script witness).map dropNone = Sign.solve a (w.spk ms) script witness := by
+  obtain ⟨b, tl, hms, hb9, hb0⟩ := hhead
+  have hsn : scriptHashFromScript ms = none := by rw [hms]; exact sign_scriptHash_none b tl hb9
+  have hw0 : isWitnessV0 ms = false := by rw [hms]; exact sign_isWitnessV0_false b tl hb0
+  rw [solve_wrap w a ctx ms base hb script witness hk hsz hsh hv]
+  unfold Sign.solve
+  cases existingScript script witness with
+  | error e => rfl
+  | ok existing =>
+    simp only []
+    cases w with
+    | bare =>
+      simp only [Wrap.spk, Wrap.witness, wrapPushes, hsn, hw0, hcl, Bool.false_eq_true, if_false]
+      cases solveBase a.C a.lookup (a.sighash false ms) existing a.ht a.placeholder base with
+      | error e => rfl
+      | ok items => simp only []; cases pushAll items <;> rfl
+    | p2sh =>
+      have hkk : a.p2sh (Hash.hash160 ms) = some ms := hk
+      simp only [Wrap.spk, Wrap.witness, wrapPushes, sign_scriptHash_p2sh _ (hsz.h160 rfl).1, hkk, hw0, hcl, Bool.false_eq_true,
+        if_false]
+      cases solveBase a.C a.lookup (a.sighash false ms) existing a.ht a.placeholder base with
+      | error e => rfl
+      | ok items => simp only []; cases pushAll (items ++ [some ms]) <;> rfl
+    | p2wsh =>
+      have hkk : a.p2sh (Hash.sha256 ms) = some ms := hk
+      have h32 := hsz.sha rfl
+      have hs0 : scriptHashFromScript (witnessV0Script (Hash.sha256 ms)) = none := sign_scriptHash_none 0 _ (by decide)
+      simp only [Wrap.spk, Wrap.witness, wrapPushes, hs0, sign_isWitnessV0_true _ (show 2 ≤ (Hash.sha256 ms).length by omega) (by omega),
+        if_true, solveWitness, witnessV0_drop2, h32, hkk, hcl]
+      cases solveBase a.C a.lookup (a.sighash true ms) existing a.ht a.placeholder base with
+      | error e => rfl
+      | ok items => simp [pushAll, Script.compilePushDataList, dropNone, Except.map]
+    | p2shP2wsh =>
+      have hk1 := hk.1
+      have hk2 := hk.2
+      have h32 := hsz.sha rfl
+      simp only [Wrap.spk, Wrap.witness, wrapPushes, sign_scriptHash_p2sh _ (hsz.h160w rfl), hk1,
+        sign_isWitnessV0_true _ (show 2 ≤ (Hash.sha256 ms).length by omega) (by omega), if_true, solveWitness,
+        witnessV0_drop2, h32, hk2, hcl]
+      cases solveBase a.C a.lookup (a.sighash true ms) existing a.ht a.placeholder base with
+      | error e => rfl
+      | ok items =>
+        simp only []
+        cases pushAll [some (witnessV0Script (Hash.sha256 ms))] <;> simp [dropNone, Except.map]
+
+/-- `hcl` of `C05_solve_machinery_eq_result_model_partial` is satisfiable (evaluation, a test): a 2-of-3 script, keys of 33 and 65 bytes -/
+example : classify (multisigScriptN 2 [List.replicate 33 2, List.replicate 65 4, List.replicate 33 3]) =
+    some (.multisig 2 [List.replicate 33 2, List.replicate 65 4, List.replicate 33 3]) := by decide +kernel
+
+theorem classify_p2pkh (h : Bytes) (hlen : h.length = 20) : classify (p2pkhScript h) = some (.p2pkh h) := by
+  match h, hlen with
+  | [h0, h1, h2, h3, h4, h5, h6, h7, h8, h9, h10, h11, h12, h13, h14, h15, h16, h17, h18, h19], _ => rfl
+
+/-- **P2PKH: the machinery agrees with `Sign.solve`** (full: the result-level model recognises the script by pattern) -/
+theorem C05_solve_machinery_eq_result_model_p2pkh (a : SolveArgs) (ctx : VM.TxCtx) (h ph : Bytes) (script : Bytes)
+    (witness : List Bytes) (hph : a.placeholder = some ph) (hlen : h.length = 20) :
+    (Solve.solve a ctx (p2pkhScript h) script witness).map dropNone = Sign.solve a (p2pkhScript h) script witness :=
+  C05_solve_machinery_eq_result_model_partial .bare a ctx _ _ (baseOK_p2pkh a ph hph h hlen) script witness trivial
+    ⟨(fun h => by cases h), (fun h => by simp [Wrap.witness] at h), (fun h => by cases h)⟩ (scriptHash_p2pkh h) (version_p2pkh h)
+    ⟨0x76, [0xa9, 0x14] ++ h ++ [0x88, 0xac], by simp [p2pkhScript], by decide, by decide⟩ (classify_p2pkh h hlen)
+
+/-- **m-of-n multisig, the four wrappers, every `1 ≤ m ≤ n ≤ 20`, keys of 33 or 65 bytes: the machinery agrees with `Sign.solve`**
+(full: `classify_multisig` shows that the result-level model recognises the script). -/
+theorem C05_solve_machinery_eq_result_model_multisig (w : Wrap) (a : SolveArgs) (ctx : VM.TxCtx) (m : Nat) (keys : List Bytes)
+    (ph : Bytes) (script : Bytes) (witness : List Bytes) (hph : a.placeholder = some ph)
+    (hm1 : 1 ≤ m) (hmn : m ≤ keys.length) (hn : keys.length ≤ 20) (hkeys : ∀ k ∈ keys, k.length = 33 ∨ k.length = 65)
+    (hk : LookupKnows a.p2sh w (multisigScriptN m keys)) (hsz : WrapSizes w (multisigScriptN m keys)) :
+    (Solve.solve a ctx (w.spk (multisigScriptN m keys)) script witness).map dropNone =
+      Sign.solve a (w.spk (multisigScriptN m keys)) script witness := by
+  have hkeys' : ∀ k ∈ keys, 1 ≤ k.length ∧ k.length ≤ 75 := fun k hk' => by rcases hkeys k hk' with e | e <;> omega
+  obtain ⟨b, tl, hc, hb9, hb0, _, _⟩ := countPush_head m (by omega)
+  exact C05_solve_machinery_eq_result_model_partial w a ctx _ _ (baseOK_multisig a ph hph m keys hm1 hmn hn hkeys') script witness
+    hk hsz (scriptHash_multisig m keys (by omega)) (version_multisig m keys hm1 (by omega) (by omega) hkeys')
+    ⟨b, tl ++ (pushesOf keys ++ (countPush keys.length ++ [0xae])), by simp [multisigScriptN, hc], hb9, hb0⟩
+    (classify_multisig m keys hm1 hmn hn hkeys)
+
+/-- **P2PK: the machinery agrees with `Sign.solve`** -/
+theorem C05_solve_machinery_eq_result_model_p2pk (a : SolveArgs) (ctx : VM.TxCtx) (key ph : Bytes) (script : Bytes)
+    (witness : List Bytes) (hph : a.placeholder = some ph) (hk : key.length = 33 ∨ key.length = 65) :
+    (Solve.solve a ctx (p2pkScript key) script witness).map dropNone = Sign.solve a (p2pkScript key) script witness := by
+  have hb : (UInt8.ofNat key.length).toNat = key.length := by rw [UInt8.toNat_ofNat']; omega
+  have h9 : UInt8.ofNat key.length ≠ 0xa9 := by
+    intro h; have := congrArg UInt8.toNat h; rw [hb] at this
+    have e : (0xa9 : UInt8).toNat = 169 := by decide
+    omega
+  have h0 : UInt8.ofNat key.length ≠ 0 := by
+    intro h; have := congrArg UInt8.toNat h; rw [hb] at this
+    have e : (0 : UInt8).toNat = 0 := by decide
+    omega
+  exact C05_solve_machinery_eq_result_model_partial .bare a ctx _ _ (baseOK_p2pk a ph hph key (by omega) (by omega)) script witness
+    trivial ⟨(fun h => by cases h), (fun h => by simp [Wrap.witness] at h), (fun h => by cases h)⟩
+    (scriptHash_p2pk key (by omega)) (version_p2pk key (by omega) (by omega))
+    ⟨UInt8.ofNat key.length, key ++ [0xac], by simp [p2pkScript, directPush], h9, h0⟩ (classify_p2pk key hk)
+
+/-- **P2WPKH and P2SH-P2WPKH: the machinery agrees with `Sign.solve`** -/
+theorem C05_solve_machinery_eq_result_model_p2wpkh (a : SolveArgs) (ctx : VM.TxCtx) (prog ph : Bytes) (script : Bytes)
+    (witness : List Bytes) (hph : a.placeholder = some ph) (hlen : prog.length = 20) :
+    (Solve.solve a ctx (witnessV0Script prog) script witness).map dropNone = Sign.solve a (witnessV0Script prog) script witness := by
+  rw [C05_solve_machinery_p2wpkh a ctx prog ph script witness hph hlen]
+  unfold Sign.solve
+  have hs0 : scriptHashFromScript (witnessV0Script prog) = none := sign_scriptHash_none 0 _ (by decide)
+  cases existingScript script witness with
+  | error e => rfl
+  | ok existing =>
+    simp only [hs0, sign_isWitnessV0_true prog (by omega) (by omega), if_true, solveWitness, witnessV0_drop2, hlen]
+    simp only [show (20 : Nat) = 32 ↔ False from by decide, if_false]
+    rw [show [0x76, 0xa9, 0x14] ++ prog ++ [0x88, 0xac] = p2pkhScript prog from rfl]
+    cases solveBase a.C a.lookup (a.sighash true (p2pkhScript prog)) existing a.ht a.placeholder (.p2pkh prog) with
+    | error e => rfl
+    | ok items => simp [dropNone, Except.map]
+
+theorem C05_solve_machinery_eq_result_model_p2sh_p2wpkh (a : SolveArgs) (ctx : VM.TxCtx) (h prog ph : Bytes) (script : Bytes)
+    (witness : List Bytes) (hph : a.placeholder = some ph) (hlen : h.length = 20) (hplen : prog.length = 20)
+    (hl : a.p2sh h = some (witnessV0Script prog)) :
+    (Solve.solve a ctx (p2shScript h) script witness).map dropNone = Sign.solve a (p2shScript h) script witness := by
+  rw [C05_solve_machinery_p2sh_p2wpkh a ctx h prog ph script witness hph hlen hplen hl]
+  unfold Sign.solve
+  cases existingScript script witness with
+  | error e => rfl
+  | ok existing =>
+    simp only [sign_scriptHash_p2sh h hlen, hl, sign_isWitnessV0_true prog (by omega) (by omega), if_true, solveWitness,
+      witnessV0_drop2, hplen]
+    simp only [show (20 : Nat) = 32 ↔ False from by decide, if_false]
+    rw [show [0x76, 0xa9, 0x14] ++ prog ++ [0x88, 0xac] = p2pkhScript prog from rfl]
+    cases solveBase a.C a.lookup (a.sighash true (p2pkhScript prog)) existing a.ht a.placeholder (.p2pkh prog) with
+    | error e => rfl
+    | ok items =>
+      simp only []
+      cases pushAll [some (witnessV0Script prog)] <;> simp [dropNone, Except.map]
+
+
+/-- **The solver loop needs no more than `len(solutions) + 1` rounds** (Python's `while progress and None in …` has no syntactic
+bound): a round that makes progress gives a solved target to a solution that had none, and solved atoms stay solved — so
+the fuel `Solve.solveForConstraints` passes is never exhausted: any more fuel returns the same dict. -/
+theorem C05_solve_loop_fuel (a : SolveArgs) (ex : List Bytes) (sols : List Sol) (k : Nat) (sv : Solved) :
+    solverLoop a ex sols (sols.length + 1 + k) sv = solverLoop a ex sols (sols.length + 1) sv :=
+  solverLoop_fuel_aux a ex sols k (sols.length + 1) sv (by omega)
+
+/-- **The fetch loop needs no more than `len(script)` steps**: every decoder advances the program counter, so
+`Solve.runStage` never stops for lack of fuel. -/
+theorem C05_constraints_fetch_fuel (script : Bytes) (k : Nat) :
+    fetchAll script (script.length + k) 0 = fetchAll script script.length 0 :=
+  fetchAll_fuel script k script.length 0 (by omega)
+
+end machinery
 
 
 end Pycoin.Sign
